@@ -152,6 +152,16 @@ def gen_registry(rng):
                 v = default_for(reg, f["type"], rng, 2)
                 if v is not _NO:
                     f["default"] = [v]
+    # RegOK: every declared default must itself conform (defaults of nested input objects filled in); a default built
+    # before a nested type got its own defaults is dropped
+    changed = True
+    while changed:
+        changed = False
+        for d in pending:
+            for f in d["fields"]:
+                if f["default"] is not None and conforms(reg, f["type"], f["default"][0]) is not None:
+                    f["default"] = None
+                    changed = True
     return reg
 
 
